@@ -73,8 +73,24 @@ var reFrame = regexp.MustCompile(`(?m)^\s+(go\.sia\.tech/core/\S+?)\(\)\s*$`)
 
 func supervise() {
 	c := vlib.Start("C09")
-	cmd := exec.Command(os.Args[0], append(append([]string{}, os.Args[1:]...), "-worker")...)
-	cmd.Env = append(os.Environ(), "GORACE=halt_on_error=1 exitcode=66")
+	args := append(append([]string{}, os.Args[1:]...), "-worker")
+	env := os.Environ()
+	if c.Replay != "" {
+		// a saved race report is replayed by running its tier again with its seed
+		var f struct {
+			Seed int64  `json:"seed"`
+			Tier string `json:"tier"`
+			Case struct {
+				Kind string `json:"kind"`
+			} `json:"case"`
+		}
+		if raw, err := os.ReadFile(c.Replay); err == nil && json.Unmarshal(raw, &f) == nil && f.Case.Kind == "race" {
+			args = []string{"-tier", f.Tier, "-worker"}
+			env = append(env, fmt.Sprintf("VERIF_SEED=%d", f.Seed))
+		}
+	}
+	cmd := exec.Command(os.Args[0], args...)
+	cmd.Env = append(env, "GORACE=halt_on_error=1 exitcode=66")
 	cmd.Stdout = os.Stdout
 	var eb capBuf
 	cmd.Stderr = io.MultiWriter(&eb)
@@ -434,7 +450,7 @@ func work() {
 	probeElements(e.cb)
 
 	// 3. the real code under concurrency
-	num, depth := c.Pick(50, 700), 56
+	num, depth := c.Pick(50, 1000), 56
 	t0 := time.Now()
 	for _, shape := range []string{"v1only", "mixed", "v2only"} {
 		e.runShape(shape, num, depth)
@@ -988,8 +1004,7 @@ func replay(c *vlib.Ctx) {
 			}
 		}
 	default:
-		// a race: run the whole tier again with the recorded seed (the supervisor reports it)
-		fmt.Println("replay of a race report: run ./check C09 <tier> with VERIF_SEED set to the seed in the file")
+		c.Fatal("replay: unknown kind of case %q", f.Case.Kind)
 	}
 	c.Count(1, 1)
 	c.Finish()
